@@ -122,6 +122,14 @@ theorem mutation_returns_retry (c : Cfg) (t : JVal) (cluster : Option JVal) (r :
           · cases x <;> simp only [↓reduceIte, List.mem_singleton, Bool.false_eq_true, List.not_mem_nil] at hr
             subst hr; simp [raisedAt] at hmut
 
+/-- when the load of the object is answered with an error the pass makes no write at all — whether the
+    object meets the target, has drifted, or does not exist — and reports Retry with the load delay -/
+theorem load_failure_no_mutation (cluster : Option JVal) :
+    ∀ r ∈ passLoadFailed cluster, r.reqs = [] ∧ r.cluster = cluster ∧ r.outcome = .retry (.int loadRetryDelay) := by
+  intro r hr
+  simp only [passLoadFailed, List.mem_singleton] at hr
+  subst hr; exact ⟨rfl, rfl, rfl⟩
+
 /-! ## the mutation reaches the target -/
 
 /-- merge-patching the payload into *any* live object gives an object that meets the target, whose
